@@ -337,7 +337,7 @@ theorem retireDoneAt_le_total (sc : RetScenario) (ha : 0 ≤ sc.age) : retireDon
   unfold retireDoneAt; split
   · omega
   · have h1 := drainTime_le_budget sc.budget sc.sessions sc.idleAt sc.cancelAt
-    have h2 := remBudget_le sc.zeroStart sc.age totalSwitchBudget ha (by simp [totalSwitchBudget])
+    have h2 := remBudget_le sc.zeroStart sc.age totalSwitchBudget ha (Int.natCast_nonneg _)
     have h3 := remBudget_nonneg sc.zeroStart sc.age totalSwitchBudget
     simp only [RetScenario.budget] at h1 ⊢
     omega
@@ -493,5 +493,22 @@ theorem drainResults_ne_nil (maxWait : Int) (sessions : Nat) (idleAt cancelAt : 
     have a3 : ¬ maxWait.toNat = optMin (optMin maxWait.toNat idleAt) cancelAt := by
       intro e; rw [if_pos e] at h3; cases h3
     cases idleAt <;> cases cancelAt <;> simp [optMin] at a1 a2 a3 <;> omega
+
+theorem waitDoneAt_some (timeout : Int) (reportAt termAt : Option Nat) (h : 0 < timeout) :
+    ∃ t, waitDoneAt timeout reportAt termAt = some t ∧ t ≤ timeout.toNat ∧
+      (reportAt = some t ∨ termAt = some t ∨ timeout.toNat = t) := by
+  cases reportAt <;> cases termAt <;> simp only [waitDoneAt, h, if_true, optMinO] <;>
+    refine ⟨_, rfl, ?_, ?_⟩ <;>
+    (try simp only [Nat.min_def, Option.some.injEq, reduceCtorEq, false_or, or_false]) <;>
+    (try generalize timeout.toNat = T) <;> (repeat' split) <;> omega
+
+theorem waitResults_ne_nil (timeout : Int) (reportAt termAt : Option Nat) (ok : Bool) (h : 0 < timeout) :
+    waitResults timeout reportAt ok termAt ≠ [] := by
+  obtain ⟨t, ht, _, hc⟩ := waitDoneAt_some timeout reportAt termAt h
+  simp only [waitResults, ht]
+  rcases hc with hc | hc | hc
+  · simp [hc]
+  · simp [hc]
+  · simp [hc, h]
 
 end DaeVerif.C20
